@@ -1,8 +1,12 @@
 /- C18: values too long for their length prefix are refused — theorems about the primitive model for every prefix width;
    the hand-written types propagate the primitives' errors (a dropped error is an unrecognised statement). -/
+import FinProto.Obl.SPrims
 import FinProto.Obl.SNoOpaque
 import FinProto.Props.PrimLemmas
 namespace FinProto.Obl
 open FinProto
 theorem C18_no_unrecognised_statement : Gen.env.noOpaque = true := gen_noOpaque
+/-- the primitives, template-translated from the current source, are the pinned ones (or unrecognised) -/
+theorem C18_prims : primsAgree Gen.prims pinnedPrims = true := gen_prims_agree
+
 end FinProto.Obl
